@@ -91,6 +91,6 @@ def replay(ctx, path):
             if feed: lines.append("Feed " + gc.fmt(feed)); feed = []
             lines.append("Enc %s %s" % (e["variant"], gc.fmt(e["p"])))
     if feed: lines.append("Feed " + gc.fmt(feed))
-    t = ctx.drive(drv, lines, "replay")
+    t = ctx.drive(drv, lines + core.fault_line(d), "replay")
     ctx.report(ctx.judge("GstuffTrace", [t]))
     return ctx.finish(rule="replay of " + path)
